@@ -71,11 +71,18 @@ func (wrapper EpochsHooksWrapper) AfterEpochEnd(
 					operatorPowerTotal = operatorPowerTotal.Add(power.ActiveUSDValue)
 				}
 			}
+			if len(signedOperatorList) == 0 {
+				// no result of this group carries a signature, so there is nothing to
+				// account for (and taskID / taskAddr were never set): skip the group
+				ctx.Logger().Error("Failed to update task result statistics, no signed result in the group")
+				continue
+			}
 			taskInfo, err := wrapper.keeper.GetTaskInfo(ctx, strconv.FormatUint(taskID, 10), taskAddr)
-			if err != nil {
+			if err != nil || taskInfo == nil {
 				ctx.Logger().Error("Failed to update task result statistics,GetTaskInfo call failed!", "task result", taskAddr, "error", err)
-				// Handle the error gracefully, continue to the next
-				// continue
+				// Handle the error gracefully, continue to the next: taskInfo is nil here and
+				// must not be dereferenced in BeginBlock
+				continue
 			}
 			diff := types.Difference(taskInfo.OptInOperators, signedOperatorList)
 			taskInfo.SignedOperators = signedOperatorList
